@@ -338,7 +338,12 @@ pub fn c09_case(seed: u64, case: u64) -> CaseResult {
     for ri in 0..nrep {
         let wri: Vec<&(usize, usize, String, String)> = base.writes.iter().filter(|w| w.0 == ri).collect();
         for w in &wri {
-            for plan in [vec![w.1], vec![w.1, w.1 + 1]] {
+            let mut plans = vec![vec![w.1], vec![w.1, w.1 + 1]];
+            if w.3.contains("commit") {
+                // the retry fails as well, twice
+                plans.push(vec![w.1, w.1 + 1, w.1 + 2]);
+            }
+            for plan in plans {
                 res.count("c09_fault_runs", 1);
                 let f = run_script(seed, case, Some((ri, plan.clone())), false);
                 for (p, s, d) in &f.viol {
